@@ -11,7 +11,7 @@ def mc_is_special_value(ty):
 
 
 def mc_is_special_form(ty):
-    return mc_base(ty) is ANNOTATED or mc_base(ty) is UNION or mc_base(ty) is LITERAL
+    return mc_base(ty) is ANNOTATED or is_union_origin(mc_base(ty)) or mc_base(ty) is LITERAL
 
 
 def handler_at(handlers, j):
@@ -54,6 +54,16 @@ def mc_past_builtins(ty, handlers):
             and no_global_handler_answers(ty, handlers))
 
 
+# a union type, however spelled: typing.Union[X, Y] or X | Y (PEP 604, origin types.UnionType where that exists)
+def is_union_origin(b):
+    return b is UNION or b is getattr(clsref_dotted("types"), "UnionType", UNION)
+
+
+# str / bytes / bytearray and their subclasses are SCALARS (C02: never a sequence of elements), although they are abc.Sequence
+def is_text_type(b):
+    return issub(b, str) or issub(b, bytes) or issub(b, bytearray)
+
+
 SPEC("pane.convert", "make_converter",
      shapes={"handlers": "rec:ConverterHandlers", ".globals": "seq", ".class_local": "seq", "args": "seq",
              "$_BASIC_CONVERTERS": "map", "$_BASIC_WITH_ARGS": "map", "$_GLOBAL_HANDLERS": "seq", "$_ABSTRACT_MAPPING": "map",
@@ -71,9 +81,9 @@ SPEC("pane.convert", "make_converter",
          (lambda ty, handlers, result: implies(not mc_is_special_value(ty) and mc_base(ty) is ANNOTATED,
                                                result == ret("pane.convert:_annotated_converter", sat(get_args(ty), 0), get_args(ty)[1:], handlers)),
           ["C01", "C13", "C12"], "annotated"),
-         (lambda ty, handlers, result: implies(not mc_is_special_value(ty) and mc_base(ty) is UNION and mc_base(ty) is not ANNOTATED,
+         (lambda ty, handlers, result: implies(not mc_is_special_value(ty) and is_union_origin(mc_base(ty)) and mc_base(ty) is not ANNOTATED,
                                                result == UnionConverter(get_args(ty), handlers=handlers)), ["C01", "C11", "C18"], "union"),
-         (lambda ty, handlers, result: implies(not mc_is_special_value(ty) and mc_base(ty) is LITERAL and mc_base(ty) is not UNION
+         (lambda ty, handlers, result: implies(not mc_is_special_value(ty) and mc_base(ty) is LITERAL and not is_union_origin(mc_base(ty))
                                                and mc_base(ty) is not ANNOTATED,
                                                result == LiteralConverter(get_args(ty))), ["C01"], "literal"),
          # call-level and class-local handlers, in order; the first that answers wins, one that defers is skipped
@@ -112,13 +122,15 @@ SPEC("pane.convert", "make_converter",
          # homogeneous sequences and sets: abstract types mapped to a concrete container, element type defaulting to Any
          (lambda ty, handlers, result: implies(
              mc_past_builtins(ty, handlers) and not issub(mc_base(ty), Enum) and not issub(mc_base(ty), PathLike) and not issub(mc_base(ty), tuple)
-             and (issub(mc_base(ty), Sequence) or issub(mc_base(ty), Set)) and not isabstract(mget_or(ABSTRACT_MAPPING, mc_base(ty))),
+             and (issub(mc_base(ty), Sequence) or issub(mc_base(ty), Set)) and not is_text_type(mc_base(ty))
+             and not isabstract(mget_or(ABSTRACT_MAPPING, mc_base(ty))),
              result == SequenceConverter(mget_or(ABSTRACT_MAPPING, mc_base(ty)),
                                          ite(slen(get_args(ty)) > 0, sat(get_args(ty), 0), ANY), handlers=handlers)), ["C01", "C18"], "sequence"),
          # subclasses of the scalar built-ins are delegated to the FIRST matching row of the table
          (lambda ty, handlers, result: implies(
              mc_past_builtins(ty, handlers) and not issub(mc_base(ty), Enum) and not issub(mc_base(ty), PathLike) and not issub(mc_base(ty), tuple)
-             and not issub(mc_base(ty), Sequence) and not issub(mc_base(ty), Set) and not issub(mc_base(ty), dict) and not issub(mc_base(ty), Mapping),
+             and ((not issub(mc_base(ty), Sequence) and not issub(mc_base(ty), Set)) or is_text_type(mc_base(ty)))
+             and not issub(mc_base(ty), dict) and not issub(mc_base(ty), Mapping),
              exists(range(mlen(BASIC_CONVERTERS)), lambda k: issub(mc_base(ty), key_at(BASIC_CONVERTERS, k))
                     and forall(range(k), lambda j: not issub(mc_base(ty), key_at(BASIC_CONVERTERS, j)))
                     and result == DelegateConverter(key_at(BASIC_CONVERTERS, k), mc_base(ty), handlers=handlers))), ["C01", "C18"], "delegate"),
